@@ -504,6 +504,17 @@ func (fr *FnRun) evalCall(e *Expr, env *Env) Val {
 		}
 		panic(abortf("contract: bytes of %T", arg(0)))
 	}
+	switch name {
+	case "byte16", "byte32", "byte64", "unle16", "unle32", "unle64":
+		var bits int
+		fmt.Sscanf(name[4:], "%d", &bits)
+		ex.byteFns(bits)
+		var ts []*Term
+		for i := range e.Args {
+			ts = append(ts, targ(i))
+		}
+		return App(name, SInt, ts...)
+	}
 	if f, ok := ex.DB.Funcs[name]; ok {
 		var args []Val
 		for i := range e.Args {
